@@ -134,6 +134,12 @@ def check_load(rep, repo):
            f"installation: {[e.text()[:100] for e in inst]}")
     ws = write_summaries(repo)
     for e in w.events:
+        if e.kind == "call" and e.target is not None and e.target[0] == "attr" and e.target[2] in (
+                "pop", "popitem", "clear", "setdefault", "__delitem__", "__setitem__") and inst and e.seq < inst[0].seq:
+            r = root_object(e.target[1])
+            if r == obj or (r[0] == "old" and r[1] == obj):
+                rep.ev("LOAD-untouched", e, False,
+                       f".{e.target[2]}() on the loaded state before it is installed: an entry of the pickled model never reaches self")
         if e.kind == "store":
             r = root_object(e.target)
             if r == obj or (r[0] == "old" and r[1] == obj):
